@@ -340,8 +340,9 @@ Plan genHostile(const std::string& prop, int tier, uint64_t batchSeed, uint64_t 
         const int devs[3] = {static_cast<int>(r.pick<int64_t>({1, 0, 0x0100})), static_cast<int>(r.pick<int64_t>({2, 0xFFFF, 0x0101})), 3};
         const int strs[3] = {static_cast<int>(r.pick<int64_t>({0, 1})), static_cast<int>(r.pick<int64_t>({2, 0xFF})), 3};
         std::set<std::pair<int, int>> s;
+        const bool crowd = r.chance(1, 6);  // one device with random streams: keys colliding in one coordinate and in hash buckets
         while (s.size() < nNodes)
-            s.insert({devs[r.below(3)], strs[r.below(3)]});
+            s.insert({devs[crowd ? 0 : r.below(3)], crowd ? static_cast<int>(r.below(256)) : strs[r.below(3)]});
         eps.assign(s.begin(), s.end());
     }
     std::vector<int> nodeType(nNodes);
